@@ -7,8 +7,6 @@ package main
 
 import (
 	"bufio"
-	"crypto/md5"
-	"encoding/hex"
 	"encoding/json"
 	"fmt"
 	"os"
@@ -80,63 +78,3 @@ func run(stack, dir, progFile, out string) {
 	fmt.Printf("programs=%d events=%d\n", n, w.Count())
 }
 
-// term: {"single": bool, "parts": [[blob,...],...], "raw": "etag as returned"}
-type term struct {
-	Single bool       `json:"single"`
-	Parts  [][]string `json:"parts"`
-	Raw    string     `json:"raw"`
-}
-
-func partBytes(p []string) []byte {
-	var out []byte
-	for _, s := range p {
-		out = append(out, pdrv.BlobBytes(s)...)
-	}
-	return out
-}
-
-// ETag rule as the property states it: MD5 of the bytes for single-part objects,
-// MD5 of the concatenated part MD5s with "-N" for multipart/appended objects.
-func etagOf(t term) string {
-	if t.Single {
-		var all []byte
-		for _, p := range t.Parts {
-			all = append(all, partBytes(p)...)
-		}
-		s := md5.Sum(all)
-		return hex.EncodeToString(s[:])
-	}
-	var cat []byte
-	for _, p := range t.Parts {
-		s := md5.Sum(partBytes(p))
-		cat = append(cat, s[:]...)
-	}
-	s := md5.Sum(cat)
-	return fmt.Sprintf("%s-%d", hex.EncodeToString(s[:]), len(t.Parts))
-}
-
-func digests(in, out string) {
-	raw, err := os.ReadFile(in)
-	must(err)
-	var terms []term
-	must(json.Unmarshal(raw, &terms))
-	type res struct {
-		Term     term   `json:"term"`
-		Expected string `json:"expected"`
-		OK       bool   `json:"ok"`
-	}
-	var rs []res
-	for _, t := range terms {
-		e := etagOf(t)
-		rs = append(rs, res{t, e, e == trimQuotes(t.Raw)})
-	}
-	b, _ := json.Marshal(rs)
-	must(os.WriteFile(out, b, 0o644))
-}
-
-func trimQuotes(s string) string {
-	if len(s) >= 2 && s[0] == '"' && s[len(s)-1] == '"' {
-		return s[1 : len(s)-1]
-	}
-	return s
-}
